@@ -60,7 +60,8 @@ MIN_EVENTS = {
               'latm_elements': 1500, 'latm_grid_lengths': 1200, 'latm_length_multiple_of_255': 200,
               'latm_length_next_to_multiple_of_255': 200, 'aac_source_frames': 1500, 'aac_source_frames_multiple_of_255': 400,
               'sbc_source_streams': 600, 'sbc_source_packets': 2000, 'sbc_source_packets_with_15_frames': 300,
-              'sbc_source_streams_unaligned': 120, 'sbc_grid_frames_per_packet': 36, 'rtp_grid_packets': 128},
+              'sbc_source_streams_unaligned': 120, 'sbc_grid_frames_per_packet': 36, 'rtp_grid_packets': 128,
+              'cfgopt_lists': 10000, 'cfgopt_options': 12000, 'cfgopt_options_with_hint_bit': 5000, 'cfgopt_grid_types_x_lengths': 7000},
     'thorough': {'oracle_evals': 3000000, 'instances': 500000, 'layout_checks': 500000, 'from_bytes_checks': 400000,
                  'rebuild_checks': 300000, 'pollution_steps': 50000, 'ertm_fields': 33000, 'rfcomm_frames': 30000,
                  'sdp_elements': 50000, 'sdp_wide_elements': 6000, 'avdtp_generic_messages': 8000, 'sdp_size_boundaries': 100, 'uuid_ops': 15000, 'inst_l2cap-sig': 60000, 'inst_att': 100000,
@@ -70,7 +71,8 @@ MIN_EVENTS = {
                  'latm_elements': 15000, 'latm_grid_lengths': 4800, 'latm_length_multiple_of_255': 2000,
                  'latm_length_next_to_multiple_of_255': 2000, 'aac_source_frames': 15000, 'aac_source_frames_multiple_of_255': 4000,
                  'sbc_source_streams': 6000, 'sbc_source_packets': 20000, 'sbc_source_packets_with_15_frames': 3000,
-                 'sbc_source_streams_unaligned': 1200, 'sbc_grid_frames_per_packet': 144, 'rtp_grid_packets': 512},
+                 'sbc_source_streams_unaligned': 1200, 'sbc_grid_frames_per_packet': 144, 'rtp_grid_packets': 512,
+                 'cfgopt_lists': 50000, 'cfgopt_options': 80000, 'cfgopt_options_with_hint_bit': 30000, 'cfgopt_grid_types_x_lengths': 7000},
 }
 CASE_TIMEOUT = 900
 SHARD_TIMEOUT = {'quick': 900, 'thorough': 7200}
@@ -82,6 +84,7 @@ def plan(tier, seed):
     cases = [{'kind': 'mix', 'seed': seed * 100003 + i, 'per_unit': per} for i in range(n)]
     cases.append({'kind': 'ertm-all', 'seed': seed})
     cases.append({'kind': 'rfcomm-grid', 'seed': seed})
+    cases.append({'kind': 'cfgopt-grid', 'seed': seed})
     for i in range(2 if tier == 'quick' else 16):
         cases.append({'kind': 'avdtp-generic', 'seed': seed * 100003 + i})
     for i in range(4 if tier == 'quick' else 16):
@@ -1023,6 +1026,149 @@ def ev_l2cap_pdu(ev: Ev, unit):
     if okp:
         ev.check((int(p.cid), bytes(p.payload)) == (cid, payload), 'from-bytes/value', None, lambda: f'{what()} parsed cid={p.cid} payload={hx(p.payload, 40)}')
         ev.check(bytes(p) == ref, 'from-bytes/reserialise', None, lambda: f'{what()} again={hx(bytes(p), 60)}')
+
+
+def cfgopt_class(opts):
+    """mechanism class of an option list: the first option whose type octet has the hint bit, else the first option"""
+    if not opts:
+        return 'empty-list'
+    hinted = [o for o in opts if o[0] & 0x80]
+    t, v = (hinted or opts)[0]
+    n = len(v)
+    return RU.cfg_type_class(t) + ('/empty-value' if n == 0 else '/long-value' if n > 22 else '')
+
+
+def cfgopt_diff_class(opts, got):
+    """class of the FIRST option that did not come back as it was sent"""
+    i = next((k for k, (a, b) in enumerate(zip(opts, got)) if a != b), min(len(opts), len(got)))
+    if i >= len(opts):
+        return 'options-added'
+    t, v = opts[i]
+    how = 'dropped' if i >= len(got) else 'type-changed' if got[i][0] != t else 'value-changed'
+    return (RU.cfg_type_class(t) + ('/empty-value' if not v else '/long-value' if len(v) > 22 else '') +
+            ('/last-option' if i == len(opts) - 1 else '') + '/' + how)
+
+
+def cfgopt_one(ev: Ev, opts, carrier, grid=False):
+    """the option list of Configure Request / Response as a codec of its own: [(type octet, value)] <-> octets,
+    alone and carried in a signalling frame; the whole type octet (hint bit included) is the value"""
+    from bumble import l2cap
+    rng, r = ev.rng, ev.r
+    F = l2cap.L2CAP_Control_Frame
+    ref = RU.cfg_options(opts)
+    disc = cfgopt_class(opts)
+    r.ev('cfgopt_lists')
+    r.ev('cfgopt_options', len(opts))
+    r.ev('cfgopt_options_with_hint_bit', sum(1 for t, _ in opts if t & 0x80))
+    if not grid:
+        r.sig('cfgopt', carrier, len(opts), tuple(sorted({RU.cfg_type_class(t) for t, _ in opts}))[:3])
+    what = lambda: f'options={[(hex(t), v.hex()) for t, v in opts]} ref={hx(ref, 80)}'  # noqa
+    plain = lambda lst: [(int(t), bytes(v)) for t, v in lst]  # noqa
+
+    def judge_decoded(data, clause_prefix):
+        r.ev('from_bytes_checks')
+        ok, got = ev.guarded(f'{clause_prefix}/parse', disc, lambda: F.decode_configuration_options(data), what)
+        if not ok:
+            return
+        ev.check(plain(got) == opts, f'{clause_prefix}/value', cfgopt_diff_class(opts, plain(got)) if plain(got) != opts else disc,
+                 lambda: f'{what()} decoded={[(hex(int(t)), bytes(v).hex()) for t, v in got]}')
+        r.ev('rebuild_checks')
+        ok, again = ev.guarded(f'{clause_prefix}/reserialise', disc, lambda: F.encode_configuration_options(got), what)
+        if ok:
+            ev.check(again == ref, f'{clause_prefix}/reserialise', disc, lambda: f'{what()} decode then encode={hx(again, 80)}')
+
+    # fields -> octets
+    r.ev('layout_checks')
+    ok, b1 = ev.guarded('serialise', disc, lambda: F.encode_configuration_options(list(opts)), what)
+    if ok:
+        ev.check(b1 == ref, 'layout', disc, lambda: f'{what()} bumble={hx(b1, 80)}')
+    if carrier == 'options':
+        judge_decoded(ref, 'from-bytes')
+        return
+    ident, cid, flags = rng.randint(1, 255), rng.choice([0x40, 0x41, 0xFFFF, RU.gen_int(rng, 16)]), rng.choice([0, 1])
+    if carrier == 'in-request':
+        wire = RU.l2cap_configure_request(ident, cid, flags, ref)
+        build = lambda: l2cap.L2CAP_Configure_Request(identifier=ident, destination_cid=cid, flags=flags, options=ref)  # noqa
+        view = lambda o: (type(o).__name__, o.identifier, o.destination_cid, o.flags)  # noqa
+        rebuild = lambda o, enc: l2cap.L2CAP_Configure_Request(identifier=o.identifier, destination_cid=o.destination_cid, flags=o.flags, options=enc)  # noqa
+        want_view = ('L2CAP_Configure_Request', ident, cid, flags)
+    else:
+        result = rng.choice([0, 1, 2, 3, 4, 5])
+        wire = RU.l2cap_configure_response(ident, cid, flags, result, ref)
+        build = lambda: l2cap.L2CAP_Configure_Response(identifier=ident, source_cid=cid, flags=flags, result=result, options=ref)  # noqa
+        view = lambda o: (type(o).__name__, o.identifier, o.source_cid, o.flags, int(o.result))  # noqa
+        rebuild = lambda o, enc: l2cap.L2CAP_Configure_Response(identifier=o.identifier, source_cid=o.source_cid, flags=o.flags, result=o.result, options=enc)  # noqa
+        want_view = ('L2CAP_Configure_Response', ident, cid, flags, result)
+    whatf = lambda: f'{what()} frame={hx(wire, 100)}'  # noqa
+    ok, obj = ev.guarded('build', disc, build, whatf)
+    if ok:
+        ok, b2 = ev.guarded('serialise', disc, lambda: bytes(obj), whatf)
+        if ok:
+            ev.check(b2 == wire, 'layout', disc, lambda: f'{whatf()} bumble={hx(b2, 100)}')
+    r.ev('from_bytes_checks')
+    ok, p = ev.guarded('from-bytes/parse', disc, lambda: F.from_bytes(wire), whatf)
+    if not ok:
+        return
+    okv, pv = ev.guarded('from-bytes/value', disc, lambda: view(p), whatf)
+    if okv:
+        ev.check(pv == want_view, 'from-bytes/value', disc, lambda: f'{whatf()} parsed={pv}')
+    ev.check(bytes(p.options) == ref, 'from-bytes/value', disc, lambda: f'{whatf()} parsed options octets={hx(p.options, 80)}')
+    ev.check(bytes(p) == wire, 'from-bytes/reserialise', disc, lambda: f'{whatf()} again={hx(bytes(p), 100)}')
+    judge_decoded(bytes(p.options), 'from-bytes/options')
+    # rebuild the frame from the decoded list, the way ClassicChannel builds its answer from a received request
+    okd, got = ev.guarded('rebuild', disc, lambda: F.decode_configuration_options(bytes(p.options)), whatf)
+    if okd:
+        r.ev('rebuild_checks')
+        okr, b3 = ev.guarded('rebuild', disc, lambda: bytes(rebuild(p, F.encode_configuration_options(got))), whatf)
+        if okr:
+            ev.check(b3 == wire, 'rebuild', disc, lambda: f'{whatf()} rebuilt from the decoded list={hx(b3, 100)}')
+
+
+def gen_cfg_option(rng):
+    c = rng.random()
+    if c < 0.35:      # a defined option with its defined length, maybe hinted
+        base = rng.choice(sorted(RU.CFG_OPTION_LENGTHS))
+        t = base | (0x80 if rng.random() < 0.4 else 0)
+        n = RU.CFG_OPTION_LENGTHS[base]
+    elif c < 0.6:     # boundary type octets
+        t = rng.choice([0x00, 0x01, 0x07, 0x08, 0x7E, 0x7F, 0x80, 0x81, 0x85, 0x87, 0x88, 0xC5, 0xFE, 0xFF])
+        n = rng.choice([0, 1, 2, 3, 4, 8])
+    else:
+        t = rng.getrandbits(8)
+        n = rng.choice([0, 1, 2, 2, 3, 4, 5, 6, 7, 8, 9, 16, 22, 40, 255])
+    return t, RU.rnd_bytes(rng, n)
+
+
+def ev_cfgopt(ev: Ev, unit):
+    rng = ev.rng
+    ev.begin()
+    k = rng.choice([0, 1, 1, 2, 2, 3, 4, 5])
+    opts = [gen_cfg_option(rng) for _ in range(k)]
+    cfgopt_one(ev, opts, unit)
+
+
+def case_cfgopt_grid(case, r: R):
+    """every type octet 0x00-0xFF x value lengths 0-8, 22, 23 and 255, alone (bare list and inside both frames) and
+    as the middle option of a list of three"""
+    rng = random.Random(f'cfgopt-grid/{case["seed"]}')
+    n = 0
+    for carrier in ('options', 'in-request', 'in-response'):
+        ev = Ev(r, 'l2cap-cfgopt', carrier, rng)
+        for t in range(256):
+            for ln in list(range(0, 9)) + [22, 23, 255]:
+                if carrier != 'options' and ln in (5, 6, 7, 23):
+                    continue
+                ev.begin()
+                cfgopt_one(ev, [(t, RU.rnd_bytes(rng, ln))], carrier, grid=True)
+                r.ev('cfgopt_grid_types_x_lengths')
+                n += 1
+            ev.begin()
+            cfgopt_one(ev, [(0x01, b'\xa0\x02'), (t, RU.rnd_bytes(rng, 2)), (t ^ 0x80, RU.rnd_bytes(rng, 1))], carrier, grid=True)
+            n += 1
+    r.sig('cfgopt-grid', 'exhaustive')
+    r.evals(n)
+    r.sample = {'kind': 'cfgopt-grid', 'type_octets': '0x00-0xFF (all)', 'value_lengths': '0-8, 22, 23, 255',
+                'carriers': ['bare option list', 'L2CAP_Configure_Request', 'L2CAP_Configure_Response'], 'lists': n}
 
 
 def ev_unknown_code(ev: Ev, unit):
@@ -2221,6 +2367,7 @@ HAND_UNITS = {
     'l2cap-ertm': (['i-frame', 's-frame'], ev_ertm),
     'l2cap-psm': (['psm'], ev_psm),
     'l2cap-pdu': (['L2CAP_PDU'], ev_l2cap_pdu),
+    'l2cap-cfgopt': (['options', 'in-request', 'in-response'], ev_cfgopt),
     'unknown-code': (['l2cap-sig', 'att', 'smp'], ev_unknown_code),
     'sdp-element': (['any', 'uint', 'sint', 'uuid', 'text', 'url', 'seq', 'alt', 'bool', 'nil', 'nested', 'wide', 'nonminimal', 'int128'], ev_sdp_element),
     'rfcomm-frame': (['sabm', 'ua', 'dm', 'disc', 'uih', 'uih-credit'], ev_rfcomm_frame),
@@ -2614,6 +2761,8 @@ def run_case(case, r: R):
         case_avc_grid(case, r)
     elif kind == 'media-grid':
         case_media_grid(case, r)
+    elif kind == 'cfgopt-grid':
+        case_cfgopt_grid(case, r)
     else:
         raise ValueError(kind)
 
